@@ -64,8 +64,10 @@ Section PrimInv.
   Lemma prim_build_dir c n : fun_name n -> P c -> P (fst (build_dir E T c n)).
   Proof.
     intros Hn H. unfold build_dir, sinterp_str.
-    pose proof (sinterp_pres P false (lookup E T bd_diverge false)
-                  (fun st m Hst => prim_lookup bd_diverge (fun c0 _ _ Hc => P_abort c0 Hc) false st m Hst)
+    assert (Hnest : forall c0 n0, fun_name n0 -> P c0 -> P (fst (bd_nested T c0 n0))).
+    { intros c0 n0 _ Hc. unfold bd_nested. destruct (t_builddir_guard T); [exact Hc|apply P_abort, Hc]. }
+    pose proof (sinterp_pres P false (lookup E T (bd_nested T) false)
+                  (fun st m Hst => prim_lookup (bd_nested T) Hnest false st m Hst)
                   (pred (t_depth_limit T)) c (cstr running_tmpl) H) as Hs.
     destruct (sinterp _ _ _ c _) as [c1 r]. simpl in Hs. destruct r as [p|e].
     - destruct (e_file E p); [exact Hs|]. destruct (first_line (cstr b)); simpl.
